@@ -64,6 +64,7 @@ const (
 	fpHalf        = "write-without-commit-or-done"
 	fpStore       = "store-differs-from-last-batchwrite"
 	fpRegress     = "store-regressed-to-older-version"
+	fpForeignDone = "batchwritedone-from-another-writer"
 )
 
 // caseGuard bounds the time one run may go WITHOUT observable progress (no harness event logged,
@@ -98,10 +99,12 @@ type caseRec struct {
 	DoubleStop bool   `json:"double_stop,omitempty"`
 	SameObj    bool   `json:"same_object,omitempty"` // coldstart: all first Enqueues on one object
 	// multi-writer family
-	Opts    string    `json:"opts,omitempty"`     // which options the constructor gets: "" = all three, "timeout", "timeout+batch"
-	Extreme bool      `json:"extreme,omitempty"`  // huge time-out and batch size: only Flush can commit; never stopped (Stop waits one batch time-out on the unchanged tree)
-	Subs    []caseRec `json:"writers,omitempty"`  // kind multi: the writers, in construction order
-	MultiOf *caseRec  `json:"multi_of,omitempty"` // set on a writer's record: the multi case to replay
+	Opts       string    `json:"opts,omitempty"`        // which options the constructor gets: "" = all three, "timeout", "timeout+batch"
+	Extreme    bool      `json:"extreme,omitempty"`     // huge time-out and batch size: only Flush can commit; never stopped (Stop waits one batch time-out on the unchanged tree)
+	Subs       []caseRec `json:"writers,omitempty"`     // kind multi: the writers, in construction order
+	MultiOf    *caseRec  `json:"multi_of,omitempty"`    // set on a writer's record: the multi case to replay
+	OneP       bool      `json:"one_p,omitempty"`       // run in a child with GOMAXPROCS=1 (per-P state such as sync.Pool is shared between writers)
+	HoldSecond bool      `json:"hold_second,omitempty"` // pair: the writer constructed second is the one held in BatchWriteDone
 	// flush-boundary family
 	FlushK, FlushD, After int   `json:",omitempty"` // Flush while k*batchSize+d objects are collected/queued (incl. one re-enqueue); further objects afterwards
 	CaseSeed              int64 `json:"case_seed"`
@@ -169,6 +172,7 @@ type mon struct {
 	nW, nD     atomic.Int64 // BatchWrite / BatchWriteDone calls
 	hev        atomic.Int64 // caller-side events (Enqueue/Stop/Flush calls and returns, yield points)
 	regress    []string     // findings of the per-Commit store check (under mu)
+	foreign    []string     // BatchWriteDone calls that came from another writer's goroutine (under mu)
 	compacted  int          // empty N/X pairs dropped from the log (a time-out <= 0 makes an idle writer spin)
 }
 
@@ -280,6 +284,9 @@ type obj struct {
 }
 
 func (o *obj) BatchWrite(bm kvstore.BatchedMutations) {
+	if o.s.multi {
+		o.s.writerGid.CompareAndSwap(0, gdump.GoID())
+	}
 	v := o.version.Load()
 	b := 0
 	if w, ok := bm.(*wmuts); ok {
@@ -299,6 +306,15 @@ func (o *obj) BatchWrite(bm kvstore.BatchedMutations) {
 func (o *obj) BatchWriteDone() {
 	// a gated schedule may hold the writer inside the first acknowledgement of a run (a slow
 	// BatchWriteDone); the event is logged when the call is entered, as always
+	if o.s.multi {
+		// several writers are alive: an acknowledgement must come from the goroutine that wrote this
+		// writer's objects
+		if w, me := o.s.writerGid.Load(), gdump.GoID(); w != 0 && w != me {
+			o.s.m.mu.Lock()
+			o.s.m.foreign = append(o.s.m.foreign, fmt.Sprintf("obj%d.BatchWriteDone() called by goroutine %d, this writer's BatchWrite calls come from goroutine %d", o.id, me, w))
+			o.s.m.mu.Unlock()
+		}
+	}
 	o.s.m.wlog(ev{K: 'D', P: -1, O: o.id})
 	if g := o.s.doneGate; g != nil && g.used.CompareAndSwap(false, true) {
 		close(g.reached)
@@ -435,10 +451,11 @@ type scen struct {
 	// writerIdle: the run ended by rule R3 with the writer goroutine alive but idle for ever
 	writerIdle bool
 	abortAfter bool
-	doneGate   *gate // set before the first Enqueue
-	writeGate  *gate // holds the writer inside the first BatchWrite of the run (after it read the version)
-	multi      bool  // other BatchedWriters are alive in this process, see mine()
-	noEnd      bool  // the writer was not stopped: no end-of-run demands (see extremeBody)
+	doneGate   *gate         // set before the first Enqueue
+	writeGate  *gate         // holds the writer inside the first BatchWrite of the run (after it read the version)
+	multi      bool          // other BatchedWriters are alive in this process, see mine()
+	writerGid  atomic.Uint64 // multi: goroutine that calls BatchWrite on this writer's objects
+	noEnd      bool          // the writer was not stopped: no end-of-run demands (see extremeBody)
 	// beforeStop, when set, is waited for by every Stop caller (multi-writer family: all writers
 	// have been constructed)
 	beforeStop <-chan struct{}
@@ -1069,7 +1086,11 @@ func (s *scen) analyze() *analysis {
 	s.m.mu.Lock()
 	an.empty += s.m.compacted
 	regress := append([]string(nil), s.m.regress...)
+	foreign := append([]string(nil), s.m.foreign...)
 	s.m.mu.Unlock()
+	if len(foreign) > 0 {
+		add(fpForeignDone, "%s; %d such calls in this run", foreign[0], len(foreign))
+	}
 	if len(regress) > 0 {
 		add(fpRegress, "%s (BatchWriteDone had been delivered for the newer write); %d such commits in this run", regress[0], len(regress))
 	}
@@ -1229,6 +1250,9 @@ func (s *scen) report(extraKey string) []string {
 	c.Count("evaluations", 1)
 	c.Count("runs_"+cs.Kind, 1)
 	c.Count("runs_timeout="+cs.timeout().String(), 1)
+	if cs.OneP {
+		c.Count("runs_gomaxprocs1", 1)
+	}
 	c.Count("runs_"+cs.Kind+"_timeout="+cs.timeout().String(), 1)
 	if cs.B >= 1000 {
 		c.Count("runs_batch_larger_than_objects", 1)
@@ -1297,6 +1321,8 @@ func runCase(c *vf.Ctx, cs *caseRec) (fps []string, ok bool) {
 		return runSlowDone(c, cs)
 	case "multi":
 		return runMulti(c, cs)
+	case "pair":
+		return runPair(c, cs)
 	case "flushk":
 		return runFlushK(c, cs)
 	case "stress":
@@ -1602,6 +1628,115 @@ func runMulti(c *vf.Ctx, cs *caseRec) ([]string, bool) {
 	return fps, ok
 }
 
+// waitSettled waits until nothing is left to do for the writer, or – on a tree where that never
+// becomes true – until the writer has gone, has ended three empty collection rounds (logical steps),
+// or has been idle for idleBound. false = case guard.
+func (s *scen) waitSettled(w *waiter) bool {
+	var idle idleTracker
+	base := s.m.emptyLoops.Load()
+	for !s.settled() {
+		wg, wa := s.liveWriter(s.snapshot())
+		if !wa || idle.observe(s.m, wg, true) >= s.cs.idleBound() || s.m.emptyLoops.Load() >= base+3 {
+			return true
+		}
+		if !w.pause() {
+			return false
+		}
+	}
+	return true
+}
+
+// runPair: two live writers (own stores, own objects). The held one commits a batch of 2-5 objects
+// and is parked inside the FIRST BatchWriteDone of that batch (committed, acknowledgements
+// outstanding); meanwhile the other one collects, commits and acknowledges a batch of 2-5 objects
+// of its own; then the held one is released. Both are judged by the usual per-writer oracles
+// (BatchWriteDone exactly once per committed BatchWrite of that object, after its commit, by its
+// own writer). Either the first or the second constructed writer is the held one.
+func runPair(c *vf.Ctx, cs *caseRec) ([]string, bool) {
+	parent := *cs
+	var ss [2]*scen
+	for i := range ss {
+		sub := cs.Subs[i]
+		sub.MultiOf = &parent
+		ss[i] = newScen(c, &sub, sub.Objects)
+		ss[i].multi = true
+	}
+	held, other := ss[0], ss[1]
+	if cs.HoldSecond {
+		held, other = other, held
+	}
+	g := &gate{reached: make(chan struct{}), release: make(chan struct{})}
+	held.doneGate = g
+	held.self("main")
+	other.self("main")
+	fail := func(what string) ([]string, bool) {
+		c.Inconclusive(cs.name() + ": case guard expired waiting for " + what)
+		if !closed(g.release) {
+			close(g.release)
+		}
+		return nil, false
+	}
+	feed := func(s *scen) *actor {
+		return s.spawn("producer", 0, nil, func(a *actor) {
+			for _, o := range s.objs {
+				s.enqueue(a, o)
+			}
+		})
+	}
+	w := waiter{m: held.m}
+	hp := feed(held)
+	for !closed(g.reached) {
+		if !w.pause() {
+			return fail("the held writer's first BatchWriteDone")
+		}
+	}
+	if !held.probeWriter() {
+		close(g.release)
+		return nil, false
+	}
+	w2 := waiter{m: other.m}
+	op := feed(other)
+	for !closed(op.done) {
+		if !w2.pause() {
+			return fail("the other writer's Enqueues")
+		}
+	}
+	if !other.probeWriter() {
+		close(g.release)
+		return nil, false
+	}
+	if !other.waitSettled(&w2) {
+		return fail("the other writer's batch")
+	}
+	c.Count("pair_rounds", 1)
+	if cs.OneP {
+		c.Count("pair_rounds_one_p", 1)
+	}
+	close(g.release)
+	for !closed(hp.done) {
+		if !w.pause() {
+			return fail("the held writer's Enqueues")
+		}
+	}
+	if !held.waitSettled(&w) {
+		return fail("the held writer's batch")
+	}
+	ok := true
+	var fps []string
+	for _, s := range ss {
+		s := s
+		s.spawn("stopper", 0, nil, func(a *actor) { s.stop(a) })
+	}
+	for _, s := range ss {
+		if !s.finishWait() {
+			return fps, false
+		}
+		fps = append(fps, s.report(fmt.Sprintf("pair/held=%v", s == held))...)
+		ok = ok && !s.abortAfter
+	}
+	return fps, ok
+}
+
 // extremeBody: a writer that only a Flush can make commit.
 func (s *scen) extremeBody(signal func()) ([]string, bool) {
 	cs := s.cs
@@ -1759,8 +1894,9 @@ func runColdStart(c *vf.Ctx, cs *caseRec) ([]string, bool) {
 			s.m.log(ev{K: 'E', P: a.idx, O: o.id, V: v})
 			spin := a.rng.Intn(4) * a.rng.Intn(60)
 			ready.Add(1)
+			yield := lowParallelism || runtime.GOMAXPROCS(0) < 4
 			for ready.Load() < int32(cs.Producers) {
-				if lowParallelism {
+				if yield {
 					runtime.Gosched()
 				}
 			}
@@ -2031,7 +2167,7 @@ func configs() []cfg {
 	return out
 }
 
-func genCases(c *vf.Ctx) (plain, race []caseRec) {
+func genCases(c *vf.Ctx) (plain, race, onep, onepRace []caseRec) {
 	cfgs := configs()
 	rng := c.Rand("cases")
 	idx := 0
@@ -2137,6 +2273,52 @@ func genCases(c *vf.Ctx) (plain, race []caseRec) {
 	for n := c.Pick(80, 1200); n > 0; n-- {
 		plain = append(plain, multi())
 	}
+	// two-writer gated family, and the GOMAXPROCS=1 children (time-outs >= 1ms there: a writer that
+	// spins on a 0/1ns time-out monopolises the only P)
+	slow := func(cf cfg) bool { return cf.ns >= int64(time.Millisecond) }
+	pickSlow := func() cfg {
+		for {
+			if cf := cfgs[rng.Intn(len(cfgs))]; slow(cf) {
+				return cf
+			}
+		}
+	}
+	pair := func(oneP bool) caseRec {
+		cs := mk("pair", pickSlow())
+		cs.OneP, cs.HoldSecond = oneP, rng.Intn(2) == 0
+		for i := 0; i < 2; i++ {
+			n := 2 + rng.Intn(4)
+			sub := caseRec{Kind: "pairw", Idx: cs.Idx, OneP: oneP, Q: 256, B: []int{n, 5, 1000}[rng.Intn(3)],
+				TimeoutNs: pickSlow().ns, Objects: n, CaseSeed: rng.Int63n(1 << 40)}
+			cs.Subs = append(cs.Subs, sub)
+		}
+		return cs
+	}
+	for n := c.Pick(80, 1200); n > 0; n-- {
+		plain = append(plain, pair(false))
+	}
+	for n := c.Pick(160, 2400); n > 0; n-- {
+		onep = append(onep, pair(true))
+	}
+	for n := c.Pick(40, 600); n > 0; n-- {
+		cs := pair(true)
+		cs.Race = true
+		for i := range cs.Subs {
+			cs.Subs[i].Race = true
+		}
+		onepRace = append(onepRace, cs)
+	}
+	for n := c.Pick(40, 600); n > 0; n-- {
+		cs := multi()
+		cs.OneP = true
+		for i := range cs.Subs {
+			cs.Subs[i].OneP = true
+			if !cs.Subs[i].Extreme && cs.Subs[i].TimeoutNs < int64(time.Millisecond) {
+				cs.Subs[i].TimeoutNs = int64(time.Millisecond)
+			}
+		}
+		onep = append(onep, cs)
+	}
 	flushk := func(cf cfg) caseRec {
 		cs := mk("flushk", cf)
 		cs.FlushK, cs.FlushD, cs.After = 1+rng.Intn(3), rng.Intn(3)-1, 1+rng.Intn(3)
@@ -2158,6 +2340,11 @@ func genCases(c *vf.Ctx) (plain, race []caseRec) {
 		for _, cf := range cfgs {
 			plain = append(plain, slowdone(cf))
 		}
+	}
+	for n := c.Pick(120, 1800); n > 0; n-- {
+		cs := coldstart(pickSlow())
+		cs.OneP = true
+		onep = append(onep, cs)
 	}
 	dupflush := func(cf cfg) caseRec {
 		cs := mk("dupflush", cf)
@@ -2226,7 +2413,11 @@ func runShard(c *vf.Ctx, mode string, cases []caseRec, raceBuild bool, timeout t
 func runShardOnce(c *vf.Ctx, mode string, cases []caseRec, raceBuild bool, timeout time.Duration) (resume int) {
 	in, _ := json.Marshal(batch{Cases: cases})
 	var env []string
-	if lowParallelism {
+	if len(cases) > 0 && cases[0].OneP {
+		// scheduler diversity: with a single P, per-P state (sync.Pool private slots, caches) is
+		// shared between all writers of the process
+		env = []string{"GOMAXPROCS=1"}
+	} else if lowParallelism {
 		// With fewer CPUs than goroutines that matter (writer, callers, poller) a writer spinning
 		// on a 0/1ns time-out keeps its P for whole scheduler time slices and every hand-over
 		// costs ~10 ms. More Ps than CPUs let the OS scheduler interleave the threads instead.
@@ -2382,8 +2573,8 @@ func run(c *vf.Ctx) {
 		replay(c)
 		return
 	}
-	c.SetRule("one evaluation = one run of the real BatchedWriter (mapdb behind a logging wrapper) whose merged event log is checked after all callers returned or were decided blocked for ever and the writer goroutine exited; runs are gated (producer parked at bw.enqueue.afterRunningCheck / bw.enqueue.beforeSend while StopBatchWriter completes or parks; queue {0,1,2,256} x batch {1,2,5,1000} x time-out {0,1ns,1ms,20ms,-1ms} x 0-3 objects in flight x release early/late), 'Enqueue immediately followed by Stop', duplicate-Enqueue-retracts-while-a-Flush-is-served (one Enqueue held at beforeSend, a duplicate held inside BatchWriteScheduled after it found the flag set), slow-acknowledgement (writer held inside the first BatchWriteDone while Stop is invoked), flush-boundary (Flush while k*b+d objects, k in 1..3, d in -1..1, are collected/queued, one of the first batch re-enqueued during the drain, further Enqueues afterwards), multi-writer (2-3 writers alive together over separate stores, constructed one after the other with different options, optionally one with a huge time-out and batch size that only a Flush commits), cold start (fresh writer, 2-8 producers released together for their very first Enqueue, Stop only after all returned), and seeded stress (1-8 producers, 1-4 objects, Flush, jittered yields, Stop at a random operation count), in plain and -race builds; distinct_nontrivial counts distinct (scenario, gate state, queue class, order of yield/flag/send-return/Stop-return/BatchWrite/Commit/Done/Cancel/Batched events from Stop's invocation on) of runs in which at least one Enqueue overlapped StopBatchWriter or an accepted object was still unwritten when Stop was invoked")
-	plain, race := genCases(c)
+	c.SetRule("one evaluation = one run of the real BatchedWriter (mapdb behind a logging wrapper) whose merged event log is checked after all callers returned or were decided blocked for ever and the writer goroutine exited; runs are gated (producer parked at bw.enqueue.afterRunningCheck / bw.enqueue.beforeSend while StopBatchWriter completes or parks; queue {0,1,2,256} x batch {1,2,5,1000} x time-out {0,1ns,1ms,20ms,-1ms} x 0-3 objects in flight x release early/late), 'Enqueue immediately followed by Stop', duplicate-Enqueue-retracts-while-a-Flush-is-served (one Enqueue held at beforeSend, a duplicate held inside BatchWriteScheduled after it found the flag set), slow-acknowledgement (writer held inside the first BatchWriteDone while Stop is invoked), flush-boundary (Flush while k*b+d objects, k in 1..3, d in -1..1, are collected/queued, one of the first batch re-enqueued during the drain, further Enqueues afterwards), multi-writer (2-3 writers alive together over separate stores, constructed one after the other with different options, optionally one with a huge time-out and batch size that only a Flush commits), two-writer gated (one writer held inside the first BatchWriteDone of a committed batch of 2-5 objects while the other collects, commits and acknowledges a batch of its own; also in children with GOMAXPROCS=1, together with a slice of the multi-writer and cold-start rounds), cold start (fresh writer, 2-8 producers released together for their very first Enqueue, Stop only after all returned), and seeded stress (1-8 producers, 1-4 objects, Flush, jittered yields, Stop at a random operation count), in plain and -race builds; distinct_nontrivial counts distinct (scenario, gate state, queue class, order of yield/flag/send-return/Stop-return/BatchWrite/Commit/Done/Cancel/Batched events from Stop's invocation on) of runs in which at least one Enqueue overlapped StopBatchWriter or an accepted object was still unwritten when Stop was invoked")
+	plain, race, onep, onepRace := genCases(c)
 	c.Count("cases_generated_plain", len(plain))
 	c.Count("cases_generated_race", len(race))
 	nShard := c.Pick(8, 12)
@@ -2398,6 +2589,11 @@ func run(c *vf.Ctx) {
 	for _, sh := range shards(plain, nShard) {
 		jobs = append(jobs, job{sh, false})
 	}
+	for _, sh := range shards(onep, 4) {
+		jobs = append(jobs, job{sh, false})
+	}
+	jobs = append(jobs, job{onepRace, true})
+	c.Count("cases_generated_gomaxprocs1", len(onep)+len(onepRace))
 	workers := runtime.NumCPU() * 3 / 4
 	if workers < 1 {
 		workers = 1
@@ -2410,7 +2606,10 @@ func run(c *vf.Ctx) {
 	vf.Parallel(len(jobs), workers, func(i int) {
 		runShard(c, "batch", jobs[i].cases, jobs[i].race, timeout)
 	})
-	c.Require("evaluations", int(float64(len(plain)+len(race))*0.95))
+	c.Require("evaluations", int(float64(len(plain)+len(race)+len(onep)+len(onepRace))*0.95))
+	c.Require("pair_rounds", c.Pick(250, 3800))
+	c.Require("pair_rounds_one_p", c.Pick(180, 2700))
+	c.Require("runs_gomaxprocs1", c.Pick(500, 7500))
 	// minimums that depend on real overlap between goroutines or on the number of stress runs scale
 	// with the parallelism the machine offers: min(NumCPU,4)/4, never below a small positive floor
 	par := func(n int) int {
